@@ -232,6 +232,67 @@ let predict_js setup op =
     Printf.sprintf "n=%d ? ks=%s" n (tokens_of n tok)
   end
 
+(* ------------------------------------------------------------------ the print-buffer API, sprintbuf *)
+(* the bytes sprintbuf's format produces (same table as harness/drv_oom.c) *)
+let format_out f (str : string) (d : int) : string =
+  match f with
+  | 0 -> str
+  | 1 -> Printf.sprintf "%d" d
+  | 2 -> Printf.sprintf "head:<%s>" str
+  | 3 -> Printf.sprintf "%s=%d;" str d
+  | 4 -> Printf.sprintf "%0*d" d 7
+  | 5 -> Printf.sprintf "%s|%d|%s" str d str
+  | 6 -> Printf.sprintf "%-*s|" d str
+  | 7 -> if d < 0 then raise Unmodelled else Printf.sprintf "%.3f/%x/%c%s" (float_of_int d /. 7.0) d 'q' str
+  | _ -> raise Unmodelled
+
+type pcall = PSprintf of z list | PStep of pbop | PReset
+
+let pcall_of o =
+  let body = String.sub o 2 (String.length o - 2) in
+  match kind o with
+  | "Ps" -> (match String.split_on_char ',' body with
+      | [f; h; d] -> PSprintf (bytes_of_string (format_out (int_of_string f) (string_of_bytes (bytes_of_hex h)) (int_of_string d)))
+      | _ -> raise Unmodelled)
+  | "Pa" -> PStep (OpAppend (bytes_of_hex body))
+  | "Pm" -> (match String.split_on_char ',' body with
+      | [o'; c; l] -> PStep (OpMemset (z_of_string o', z_of_string c, z_of_string l))
+      | _ -> raise Unmodelled)
+  | "Pr" -> PReset
+  | _ -> raise Unmodelled
+
+(* the temporary of the long branch comes from vasprintf, which the controlled allocator of
+   the harness does not serve: it is never the failed request.  [fail] = fail the realloc. *)
+let pcall_run (fail : bool) (q : lpb) (s : ast) (c : pcall) =
+  match c with
+  | PSprintf out ->
+    let long = List.length out > 127 in
+    let base = int_of_nat s.nreq in
+    let o = if fail then single_fault (nat_of_int (if long then base + 1 else base)) else no_fault in
+    (sprintbuf o q out s, if long then 1 else 0)
+  | PStep op -> (lpb_step (if fail then single_fault s.nreq else no_fault) q op s, 0)
+  | PReset -> (lpb_step no_fault q OpReset s, 0)
+
+let predict_pb setup op =
+  (match setup with "Pn" :: _ -> () | _ -> raise Unmodelled);
+  let q0 = { lp_buf = pb_new; lp_blk = O } and s0 = { nreq = S O; live = [O] } in
+  let (q, s) = List.fold_left (fun (q, s) o ->
+      match fst (pcall_run false q s (pcall_of o)) with
+      | Ok ((q', _), s') -> (q', s')
+      | Fail _ -> (q, s)
+      | UB -> raise Unmodelled) (q0, s0) (List.tl setup) in
+  let c = pcall_of op in
+  let n = match pcall_run false q s c with
+    | (Ok (_, s'), hidden) -> int_of_nat s'.nreq - int_of_nat s.nreq - hidden
+    | (Fail s', _) -> int_of_nat s'.nreq - int_of_nat s.nreq          (* refused for its arguments *)
+    | (UB, _) -> raise Unmodelled in
+  let tok k =
+    match fst (pcall_run true q s c) with
+    | Fail s' -> Printf.sprintf "%d:F0:u%d" k (len s'.live - len s.live)
+    | Ok _ -> Printf.sprintf "%d:N:-0" k
+    | UB -> Printf.sprintf "%d:UB" k in
+  Printf.sprintf "n=%d ? ks=%s" n (tokens_of n tok)
+
 let run line =
   match String.split_on_char ' ' line with
   | [ks; setup; test] ->
@@ -247,6 +308,7 @@ let run line =
            | "ns" -> if setup = [] then predict_ns op else raise Unmodelled
            | "ds" -> if setup = [] then predict_ds () else raise Unmodelled
            | "js" -> predict_js setup op
+           | "Ps" | "Pa" | "Pm" -> predict_pb setup op
            | _ -> raise Unmodelled)
         | _ -> raise Unmodelled)
      with Unmodelled | Not_found | Failure _ | Invalid_argument _ -> wild)
